@@ -312,16 +312,16 @@ func TestC20_Handlers(t *testing.T) {
 		opts.Compression = false
 		srv, err := netfx.StartServer(handler, log, opts)
 		if err != nil {
-			rt.Fatalf("infrastructure: %v", err)
+			ev.InfraSkip(rt, c20, "%v", err)
 		}
 		defer srv.Stop()
 		peer, err := netfx.DialRaw(srv.Addr)
 		if err != nil {
-			rt.Fatalf("infrastructure: %v", err)
+			ev.InfraSkip(rt, c20, "%v", err)
 		}
 		defer peer.Close()
 		if _, err := peer.ClientHandshake(false); err != nil {
-			rt.Fatalf("infrastructure: %v", err)
+			ev.InfraSkip(rt, c20, "%v", err)
 		}
 		kase := &c20hCase{}
 		n := rapid.IntRange(1, 20).Draw(rt, "nopens")
